@@ -107,6 +107,7 @@ type machine struct {
 	ctxKids map[*ctxV][]*ctxV
 	initRunning *ssa.Package
 	fsm *fsModel
+	hadKnown bool
 	syncMaps map[*value]*mapV
 	traceWhere []string
 	builders map[*value]value
